@@ -703,19 +703,230 @@ theorem unescapeField_escapeField (c : FieldCfg) (hwf : fieldWf c = true) :
           obtain ⟨n, rfl⟩ : ∃ n', n = n' + 1 := ⟨n - 1, by omega⟩
           simp [unescapeField, he, stripPrefix_head_ne hne, ih n (by omega)]
 
+/-- the test `escape_and_quote_field` applies to a character of the name (as in `escapeField`) -/
+def fieldEsc (c : FieldCfg) (ch : Char) : Bool :=
+  c.escapeChars.contains ch || (c.escapeQuote && c.quote == some [ch])
+
+/-- the rendering puts a non-empty escape string in front of every `ch` of the name -/
+def fieldEscaped (c : FieldCfg) (ch : Char) : Bool :=
+  match c.escape with
+  | some (_ :: _) => fieldEsc c ch
+  | _ => false
+
+/-- the escape string is not a proper prefix of the quote string (vacuous for a one-character
+quote): otherwise the closing quote reads as an escape sequence -/
+def escNotQuotePrefix (c : FieldCfg) (q : Str) : Bool :=
+  match c.escape with
+  | some (e0 :: e') => (match stripPrefix (e0 :: e') q with | some (_ :: _) => false | _ => true)
+  | _ => true
+
+/-- decidable side condition of the field-name round trip that the strict reading of a quoted name
+forces (only for names emitted between non-empty quotes): the first character of the quote string
+is escaped by the configuration (it is in the escape class, or it is the one-character quote and
+`field_escape_quote` is set — with a non-empty escape string), OR it does not occur in the name.
+For a one-character quote this is exact (`readQuotedField_unescaped_quote`). -/
+def fieldQuoteOk (c : FieldCfg) (quoted : Bool) (f : Str) : Bool :=
+  match c.quote, quoted with
+  | some (q0 :: q'), true => escNotQuotePrefix c (q0 :: q') && (fieldEscaped c q0 || !f.contains q0)
+  | _, _ => true
+
+/-- a one-character quote has no proper prefix -/
+theorem escNotQuotePrefix_single (c : FieldCfg) (qc : Char) : escNotQuotePrefix c [qc] = true := by
+  unfold escNotQuotePrefix
+  cases he : c.escape with
+  | none => rfl
+  | some e =>
+    cases e with
+    | nil => rfl
+    | cons e0 e' =>
+      cases e' with
+      | nil => by_cases h : e0 = qc <;> simp [stripPrefix, h]
+      | cons e1 e'' => by_cases h : e0 = qc <;> simp [stripPrefix, h]
+
+theorem escapeField_nil (c : FieldCfg) : escapeField c [] = [] := by
+  unfold escapeField; cases c.escape <;> simp
+
+/-- strict reading of the escaped name followed by the closing quote -/
+theorem readQuotedField_escapeField (c : FieldCfg) (hwf : fieldWf c = true) (q0 : Char) (q' : Str)
+    (hpre : escNotQuotePrefix c (q0 :: q') = true) :
+    ∀ (f : Str) (n : Nat), (fieldEscaped c q0 || !f.contains q0) = true →
+      (escapeField c f).length < n →
+      readQuotedField c (q0 :: q') n (escapeField c f ++ q0 :: q') = some f := by
+  intro f
+  induction f with
+  | nil =>
+    intro n _ hn
+    rw [escapeField_nil] at hn ⊢
+    obtain ⟨n, rfl⟩ : ∃ n', n = n' + 1 := ⟨n - 1, by simp at hn; omega⟩
+    have hs : stripPrefix (q0 :: q') (q0 :: q') = some [] := by
+      simpa using stripPrefix_append (q0 :: q') []
+    cases he : c.escape with
+    | none => simp [readQuotedField, he, hs]
+    | some e =>
+      cases e with
+      | nil => simp [readQuotedField, he, hs]
+      | cons e0 e' =>
+        have hp : ∀ d r, stripPrefix (e0 :: e') (q0 :: q') ≠ some (d :: r) := by
+          intro d r h; simp [escNotQuotePrefix, he, h] at hpre
+        cases hx : stripPrefix (e0 :: e') (q0 :: q') with
+        | none => simp [readQuotedField, he, hx, hs]
+        | some x =>
+          cases x with
+          | nil => simp [readQuotedField, he, hx, hs]
+          | cons d r => exact absurd hx (hp d r)
+  | cons ch f ih =>
+    intro n hc hn
+    have hcf : (fieldEscaped c q0 || !f.contains q0) = true := by
+      cases h : fieldEscaped c q0 with
+      | true => simp
+      | false => simp [h] at hc ⊢; exact hc.2
+    have hq0 : fieldEscaped c q0 = false → q0 ≠ ch := by
+      intro h; simp [h] at hc; exact hc.1
+    rw [escapeField_cons] at hn ⊢
+    cases he : c.escape with
+    | none =>
+      simp only [he, List.cons_append, List.nil_append, List.length_cons] at hn ⊢
+      obtain ⟨n, rfl⟩ : ∃ n', n = n' + 1 := ⟨n - 1, by omega⟩
+      have hne : q0 ≠ ch := hq0 (by simp [fieldEscaped, he])
+      simp [readQuotedField, he, stripPrefix_head_ne hne, ih n hcf (by omega)]
+    | some e =>
+      cases e with
+      | nil =>
+        have hn' : (escapeField c f).length + 1 < n := by
+          simp only [he] at hn; split at hn <;> simpa using hn
+        obtain ⟨n, rfl⟩ : ∃ n', n = n' + 1 := ⟨n - 1, by omega⟩
+        have hne : q0 ≠ ch := hq0 (by simp [fieldEscaped, he])
+        simp only [List.nil_append, ite_self, List.cons_append]
+        simp [readQuotedField, he, stripPrefix_head_ne hne, ih n hcf (by omega)]
+      | cons e0 e' =>
+        simp only [he] at hn ⊢
+        have he0 : fieldEsc c e0 = true := by simpa [fieldWf, he, fieldEsc] using hwf
+        by_cases hch : fieldEsc c ch = true
+        · have hch' : (c.escapeChars.contains ch || (c.escapeQuote && c.quote == some [ch])) = true := hch
+          simp only [hch', if_true, List.cons_append, List.length_cons, List.append_assoc,
+            List.length_append, List.nil_append] at hn ⊢
+          obtain ⟨n, rfl⟩ : ∃ n', n = n' + 1 := ⟨n - 1, by omega⟩
+          have hs : stripPrefix (e0 :: e') (e0 :: (e' ++ ch :: (escapeField c f ++ q0 :: q')))
+              = some (ch :: (escapeField c f ++ q0 :: q')) := stripPrefix_append (e0 :: e') _
+          simp [readQuotedField, he, hs, ih n hcf (by omega)]
+        · have hne : e0 ≠ ch := by rintro rfl; exact hch he0
+          rw [Bool.not_eq_true] at hch
+          have hch' : (c.escapeChars.contains ch || (c.escapeQuote && c.quote == some [ch])) = false := hch
+          have hqne : q0 ≠ ch := by
+            cases h : fieldEscaped c q0 with
+            | false => exact hq0 h
+            | true =>
+              rintro rfl
+              simp [fieldEscaped, he, hch] at h
+          simp only [hch', Bool.false_eq_true, if_false, List.cons_append, List.nil_append,
+            List.length_cons] at hn ⊢
+          obtain ⟨n, rfl⟩ : ∃ n', n = n' + 1 := ⟨n - 1, by omega⟩
+          simp [readQuotedField, he, stripPrefix_head_ne hne, stripPrefix_head_ne hqne,
+            ih n hcf (by omega)]
+
+/-- exactness for a one-character quote: when the quote character is NOT escaped by the
+configuration and occurs in the name, the rendered body is terminated early, whatever the fuel -/
+theorem readQuotedField_unescaped_quote (c : FieldCfg) (hwf : fieldWf c = true) (qc : Char)
+    (hne : fieldEscaped c qc = false) :
+    ∀ (f : Str) (n : Nat), f.contains qc = true →
+      readQuotedField c [qc] n (escapeField c f ++ [qc]) = none := by
+  intro f
+  induction f with
+  | nil => intro n h; simp at h
+  | cons ch f ih =>
+    intro n hc
+    cases n with
+    | zero => simp [readQuotedField]
+    | succ n =>
+      rw [escapeField_cons]
+      -- the head chunk: either `e ++ [ch]` with a non-empty escape (then `ch ≠ qc`), or `[ch]`
+      cases he : c.escape with
+      | none =>
+        simp only [List.cons_append, List.nil_append]
+        by_cases hq : ch = qc
+        · subst hq
+          have hs : stripPrefix [ch] (ch :: (escapeField c f ++ [ch])) = some (escapeField c f ++ [ch]) :=
+            stripPrefix_append [ch] _
+          cases hx : escapeField c f ++ [ch] with
+          | nil => simp at hx
+          | cons a r => rw [hx] at hs; simp [readQuotedField, he, hs]
+        · have hq' : qc ≠ ch := fun h => hq h.symm
+          have hcf : f.contains qc = true := by simpa [hq'] using hc
+          simp [readQuotedField, he, stripPrefix_head_ne hq', ih n hcf]
+      | some e =>
+        cases e with
+        | nil =>
+          simp only [List.nil_append, ite_self, List.cons_append]
+          by_cases hq : ch = qc
+          · subst hq
+            have hs : stripPrefix [ch] (ch :: (escapeField c f ++ [ch])) = some (escapeField c f ++ [ch]) :=
+              stripPrefix_append [ch] _
+            cases hx : escapeField c f ++ [ch] with
+            | nil => simp at hx
+            | cons a r => rw [hx] at hs; simp [readQuotedField, he, hs]
+          · have hq' : qc ≠ ch := fun h => hq h.symm
+            have hcf : f.contains qc = true := by simpa [hq'] using hc
+            simp [readQuotedField, he, stripPrefix_head_ne hq', ih n hcf]
+        | cons e0 e' =>
+          have he0 : fieldEsc c e0 = true := by simpa [fieldWf, he, fieldEsc] using hwf
+          have hqe : fieldEsc c qc = false := by simpa [fieldEscaped, he] using hne
+          by_cases hch : fieldEsc c ch = true
+          · have hch' : (c.escapeChars.contains ch || (c.escapeQuote && c.quote == some [ch])) = true := hch
+            have hq' : qc ≠ ch := by rintro rfl; simp [hqe] at hch
+            have hcf : f.contains qc = true := by simpa [hq'] using hc
+            simp only [hch', if_true, List.cons_append, List.append_assoc, List.nil_append]
+            have hs : stripPrefix (e0 :: e') (e0 :: (e' ++ ch :: (escapeField c f ++ [qc])))
+                = some (ch :: (escapeField c f ++ [qc])) := stripPrefix_append (e0 :: e') _
+            simp [readQuotedField, he, hs, ih n hcf]
+          · have hne0 : e0 ≠ ch := by rintro rfl; exact hch he0
+            rw [Bool.not_eq_true] at hch
+            have hch' : (c.escapeChars.contains ch || (c.escapeQuote && c.quote == some [ch])) = false := hch
+            simp only [hch', Bool.false_eq_true, if_false, List.cons_append, List.nil_append]
+            by_cases hq : ch = qc
+            · subst hq
+              have hs : stripPrefix [ch] (ch :: (escapeField c f ++ [ch])) = some (escapeField c f ++ [ch]) :=
+                stripPrefix_append [ch] _
+              cases hx : escapeField c f ++ [ch] with
+              | nil => simp at hx
+              | cons a r => rw [hx] at hs; simp [readQuotedField, he, stripPrefix_head_ne hne0, hs]
+            · have hq' : qc ≠ ch := fun h => hq h.symm
+              have hcf : f.contains qc = true := by simpa [hq'] using hc
+              simp [readQuotedField, he, stripPrefix_head_ne hne0, stripPrefix_head_ne hq', ih n hcf]
+
 theorem decodeField_escapeAndQuoteField (c : FieldCfg) (hwf : fieldWf c = true) (quoted : Bool)
-    (f : Str) : decodeField c quoted (escapeAndQuoteField c quoted f) = some f := by
+    (f : Str) (hq : fieldQuoteOk c quoted f = true) :
+    decodeField c quoted (escapeAndQuoteField c quoted f) = some f := by
   unfold decodeField escapeAndQuoteField
-  cases hq : c.quote with
+  cases hcq : c.quote with
   | none => simp only []; exact unescapeField_escapeField c hwf f _ (by omega)
   | some q =>
     cases quoted with
     | false => simp only [Bool.false_eq_true, if_false]; exact unescapeField_escapeField c hwf f _ (by omega)
     | true =>
-      simp only [if_true, List.append_assoc, stripPrefix_append, List.length_append]
-      have h1 : ¬ ((escapeField c f).length + q.length < q.length) := by omega
-      have h2 : (escapeField c f).length + q.length - q.length = (escapeField c f).length := by omega
-      simp only [h1, if_false, h2, List.take_left', List.drop_left', beq_self_eq_true, if_true]
-      exact unescapeField_escapeField c hwf f _ (by omega)
+      cases q with
+      | nil =>
+        simp only [if_true, List.nil_append, List.append_nil, List.isEmpty_nil]
+        exact unescapeField_escapeField c hwf f _ (by omega)
+      | cons q0 q' =>
+        simp only [fieldQuoteOk, hcq, Bool.and_eq_true] at hq
+        simp only [if_true, List.append_assoc, stripPrefix_append, List.isEmpty_cons,
+          Bool.false_eq_true, if_false]
+        exact readQuotedField_escapeField c hwf q0 q' hq.1 f _ hq.2 (by simp; omega)
+
+/-- … and for a one-character quote the side condition is necessary: without it the quoted
+rendering is terminated early -/
+theorem decodeField_unescaped_quote (c : FieldCfg) (hwf : fieldWf c = true) (qc : Char)
+    (hcq : c.quote = some [qc]) (f : Str) (hq : fieldQuoteOk c true f = false) :
+    decodeField c true (escapeAndQuoteField c true f) = none := by
+  have h : fieldEscaped c qc = false ∧ f.contains qc = true := by
+    have hp := escNotQuotePrefix_single c qc
+    simp only [fieldQuoteOk, hcq, hp, Bool.true_and] at hq
+    cases h1 : fieldEscaped c qc with
+    | true => simp [h1] at hq
+    | false => simp [h1] at hq; exact ⟨rfl, by simpa using hq⟩
+  unfold decodeField escapeAndQuoteField
+  simp only [hcq, if_true, List.append_assoc, stripPrefix_append, List.isEmpty_cons,
+    Bool.false_eq_true, if_false]
+  exact readQuotedField_unescaped_quote c hwf qc h.1 f _ h.2
 
 end SigmaVerif.SStrSpec
